@@ -37,6 +37,7 @@ var c03Keep = []string{"dhcp_packet.xid", "dhcp_packet.chaddr", "dhcp_packet.hty
 
 func c03(c *Ctx) {
 	r := c.R
+	r.Explain = "Equivalence of the XDP fast path and the userspace server over all frames and cache states is not decided.  Decided structural clauses: XDP_PASS only with the frame unmodified; provenance (dependency sets from abstract interpretation of clang's AST) of every reply field the program writes, and the request fields it must keep; OFFER exactly for DISCOVER and ACK exactly for REQUEST over all feasible paths; replies only for ihl == 5; the checksum accumulator provably fits 16 bits before it is complemented (interval analysis); on the Go side each cache field is filled from the configuration field the slow path uses for the same option, all lease-ending paths reach the function that deletes the four kinds of cache entry, a renewing lease record keeps the circuit-id the cache entries were written under, and the expiry stamp is written in the clock domain the program reads."
 	r.Rule("C03.passUntouched", "dhcp_fastpath_prog returns XDP_PASS only on paths that have not stored into the frame (the slow path receives the request byte-identical)", 8)
 	r.Rule("C03.replyFields", "every reply field the fast path writes is made of the cache field the property names (yiaddr <- allocated_ip, server id <- server_config/pool gateway, mask <- prefix_len, router <- gateway, DNS <- dns_primary/secondary, lease/T1/T2 <- lease_time, op <- BOOTREPLY); transaction id, client hardware address, flags, giaddr are never written", 18)
 	r.Rule("C03.msgType", "the reply's message type is OFFER exactly on paths where the request is DISCOVER and ACK exactly where it is REQUEST; no other request type is answered", 2)
